@@ -34,6 +34,15 @@ CLAIMED = {
          "CRC-16/MODBUS, SSE and SZSE sums: inductive lemmas discharged by z3 give every length up to 2^26; streams up to 3 (8) symbolic bytes equal the independent formulation; Calc does not touch the buffer; CRC-32 is shown to be hash/crc32 over exactly the unread bytes.", "DESIGN.md §6 C14"),
  "C18": ("model_checking", "symbolic execution of every prefixed writer with a fully symbolic text length (up to 2^33) and of list writers at max-1..max+2 elements; message-level Encode driven over each text prefix boundary",
          "z3 shows: success implies length <= max(prefix) for all text writers and all message text fields; list writers refuse max+1 and max+2 elements and write a faithful count at max; at the maximum text round-trips.", "DESIGN.md §6 C18"),
+
+ "C08": ("model_checking", "symbolic execution of Decode on an arbitrary wire image followed by Encode of the result; z3 compares the re-encoded bytes with the consumed input region by region",
+         "For every type/key/shape every wire image (all bytes symbolic inside the shape: scalars, all W bytes of each fixed text, prefixed text up to P) that Decode accepts is reproduced by Encode, computed frame fields being replaced by their correct values.", "DESIGN.md §6 C08"),
+ "C09": ("model_checking", "symbolic execution of every Decode on every prefix of an arbitrary wire image and of every reader primitive on a fully arbitrary byte string; panic side conditions, abort-sized allocations and loop progress decided by z3",
+         "No panic side condition is satisfiable on any explored path, every path returns a message or an error, unregistered discriminators (symbolic) are errors, no reader loop outlives its input, no single allocation request reaches 2^32 bytes.", "DESIGN.md §6 C09"),
+ "C10": ("model_checking", "ghost allocation counter of the symbolic executor on arbitrary inputs; z3 decides size <= 64*input+64 per allocation and a linear budget per path",
+         "Every allocation made by every reader primitive on an arbitrary byte string (arbitrary counts/lengths) and by every message Decode on arbitrary wire images stays within a linear budget of the input size.", "DESIGN.md §6 C10"),
+ "C15": ("model_checking", "two symbolic executions of Decode on the same arbitrary image (fresh vs dirty receiver) compared by z3",
+         "Error-ness, consumption and every field agree between a fresh and a dirty receiver (non-empty lists, other body type, nested parts holding data) for every type/key/shape and every arbitrary wire image.", "DESIGN.md §6 C15"),
 }
 
 NA_REASON = "check under construction in this session; not yet claimed"
